@@ -533,4 +533,134 @@ def DMRS.scopes (d : DMRS) : Except Err (Option Var × List (Var × List Node)) 
           .ok ((scopes.find? (fun s => s.2.any (fun n => n.id = t))).map (·.1), scopes)
         else .error .keyError
 
+/-! ### DMRS: arguments, scopal arguments, descendants, representatives (C07 round 5)
+
+`scope.descendants(d)` / `scope.representatives(d)` on a DMRS.  The order of the nodes
+inside a conjoined scope comes from Python `set` iteration, so these functions take the
+scope map as a parameter (`…With sc`): the drivers pass the scope map the real
+`d.scopes()` returned (compared separately, as a partition, with `DMRS.scopes`), and
+the theorems hold for every scope map. -/
+
+inductive DErr where
+  | keyError
+  | assertionError     -- `assert isinstance(label, str)` in `_descendants`
+  | fuel               -- internal (proved unreachable)
+deriving DecidableEq, Repr
+
+def BARE_EQ_ROLE : String := "MOD"
+
+/-- `d[id]` (`_pidx`: the last node with that id). -/
+def DMRS.node? (d : DMRS) (id : Int) : Option Node := d.nodes.reverse.find? (fun n => n.id = id)
+
+/-- `{node.id: [] for node in d.nodes}` -/
+def DMRS.emptyArgMap {β : Type} (d : DMRS) : List (Int × List β) :=
+  d.nodes.foldl (fun acc n => dset n.id [] acc) []
+
+/-- does a link pass the `types` filter of `DMRS.arguments`?  (`KeyError` when the
+target of a non-scopal link is not a node) -/
+def DMRS.linkPasses (d : DMRS) (types : Option String) (l : Link) : Except DErr Bool :=
+  match types with
+  | none => .ok true
+  | some t =>
+    if t.isEmpty then .ok true
+    else if l.post = H_POST ∨ l.post = HEQ_POST then .ok (isInfix "h".toList t.toList)
+    else match d.node? l.stop with
+      | none => .error .keyError
+      | some n =>
+        match n.type with
+        | none => .ok false
+        | some ty => .ok (isInfix ty.toList t.toList)
+
+def DMRS.argsStep (d : DMRS) (types : Option String) (acc : List (Int × List (Role × Int)))
+    (l : Link) : Except DErr (List (Int × List (Role × Int))) :=
+  if l.role = BARE_EQ_ROLE then .ok acc
+  else match d.linkPasses types l with
+    | .error e => .error e
+    | .ok false => .ok acc
+    | .ok true =>
+      if (dlookup l.start acc).isSome then .ok (dextend l.start [(l.role, l.stop)] acc)
+      else .error .keyError
+
+/-- `d.arguments(types=types)` (expressed=None) -/
+def DMRS.arguments (d : DMRS) (types : Option String) :
+    Except DErr (List (Int × List (Role × Int))) :=
+  d.links.foldlM (d.argsStep types) d.emptyArgMap
+
+/-- `id_to_lbl` of `scopal_arguments(scopes=sc)`: node id ↦ label of its scope. -/
+def scopeLabelOf (sc : List (Var × List Node)) : List (Int × Var) :=
+  sc.foldl (fun acc s => s.2.foldl (fun a n => dset n.id s.1 a) acc) []
+
+/-- one link of `scopal_arguments`: `none` as target = the raw node id was kept
+(the end is in no scope), which `_descendants` rejects with an AssertionError. -/
+def DMRS.scargsStep (lblOf : List (Int × Var))
+    (acc : List (Int × List (Role × String × Option Var))) (l : Link) :
+    Except DErr (List (Int × List (Role × String × Option Var))) :=
+  let rel : Option String :=
+    if l.post = HEQ_POST then some LHEQ else if l.post = H_POST then some QEQ else none
+  match rel with
+  | none => .ok acc
+  | some r =>
+    if (dlookup l.start acc).isSome then
+      .ok (dextend l.start [(l.role, r, dlookup l.stop lblOf)] acc)
+    else .error .keyError
+
+/-- `d.scopal_arguments(scopes=sc)` -/
+def DMRS.scopalArguments (d : DMRS) (sc : List (Var × List Node)) :
+    Except DErr (List (Int × List (Role × String × Option Var))) :=
+  d.links.foldlM (DMRS.scargsStep (scopeLabelOf sc)) d.emptyArgMap
+
+/-- `scope.descendants(d, scopes=sc)` -/
+def DMRS.descendantsWith (d : DMRS) (sc : List (Var × List Node)) :
+    Except DErr (List (Int × List Node)) :=
+  match d.scopalArguments sc with
+  | .error e => .error e
+  | .ok scargs =>
+    if scargs.any (fun e => e.2.any (fun a => a.2.2.isNone)) then .error .assertionError
+    else
+      match descendantsOf (fun n : Node => n.id) d.ids
+          (scargs.map (fun e => (e.1, e.2.filterMap (fun a => a.2.2)))) sc with
+      | .ok r => .ok r
+      | .error .keyError => .error .keyError
+      | .error _ => .error .fuel
+
+/-- `d.is_quantifier(id)` -/
+def DMRS.isQuantifier (d : DMRS) (id : Int) : Bool :=
+  d.links.any (fun l => l.role = RESTRICTION_ROLE && l.start = id)
+
+/-- `_make_representative_priority(d)(n)`, rank component. -/
+def DMRS.repRank (d : DMRS) (n : Node) : Nat :=
+  if d.isQuantifier n.id || n.type = some "x" then 0
+  else if n.type = some "e" then
+    let props := match d.node? n.id with | some n' => n'.properties | none => n.properties
+    let tense := (dlookup "TENSE" props).getD ""
+    if asciiLower tense = "" ∨ asciiLower tense = "untensed" then 2 else 1
+  else 3
+
+def DMRS.repKey (d : DMRS) (n : Node) : Nat × Nat := (d.repRank n, d.ids.idxOf n.id + 1)
+
+/-- `scope.representatives(d)` given the scope map `d.scopes()` returned. -/
+def DMRS.representativesWith (d : DMRS) (sc : List (Var × List Node)) :
+    Except DErr (List (Var × List Node)) :=
+  match d.arguments (some "xeipu") with
+  | .error e => .error e
+  | .ok nsargs =>
+    match d.descendantsWith sc with
+    | .error e => .error e
+    | .ok descs =>
+      .ok (representativesOf (fun n : Node => n.id)
+        (fun n => ((dlookup n.id nsargs).getD []).map (fun a => a.2))
+        (fun j => ((dlookup j descs).getD []).map (fun n : Node => n.id))
+        d.repKey sc)
+
+/-- `scope.descendants(d)` / `scope.representatives(d)` with the model's own scope map. -/
+def DMRS.descendants (d : DMRS) : Except DErr (List (Int × List Node)) :=
+  match d.scopes with
+  | .error _ => .error .keyError
+  | .ok r => d.descendantsWith r.2
+
+def DMRS.representatives (d : DMRS) : Except DErr (List (Var × List Node)) :=
+  match d.scopes with
+  | .error _ => .error .keyError
+  | .ok r => d.representativesWith r.2
+
 end Verif.Sem
